@@ -76,6 +76,11 @@ def generate(run_seed, tier):
                                    else bytes(ln))
         else:
             it["msg"] = core.hx(r.randbytes(r.choice([0, 1, 7, 40])))
+            if kind == "inplace" and r.random() < 0.3:
+                # a large message (the stored bytes repeated): 64 KiB and
+                # 1 MiB are sizes at which implementations change strategy
+                it["msg"] = core.hx(r.randbytes(r.choice([1, 7, 40])))
+                it["msg_repeat"] = r.choice([1700, 9400, 66000, 150000])
         if kind == "bytes":
             it["faults"] = [r.choice(world.BYTE_FAULTS)
                             for _ in range(r.choice([1, 1, 2]))]
@@ -162,7 +167,10 @@ def execute(prog):
             from ecdsa import ellipticcurve as le_
             vk_rx = lk.VerifyingKey.from_public_point(
                 le_.Point(curve.curve, Q[0], Q[1]), curve, dflt)
-        msg_buf = bytearray(256)    # the verifier re-uses one message buffer
+        # the verifier re-uses one message buffer
+        msg_buf = bytearray(max([256] + [
+            len(it_["msg"]) // 2 * it_.get("msg_repeat", 1)
+            for it_ in prog["items"] if "msg" in it_]))
         for it in prog["items"]:
             out["ops"] += 1
             kind = it["kind"]
@@ -174,7 +182,7 @@ def execute(prog):
                 digest = core.unhx(it["digest"])
                 msg = None
             else:
-                msg = core.unhx(it["msg"])
+                msg = core.unhx(it["msg"]) * it.get("msg_repeat", 1)
                 digest = hf(msg).digest()
                 allow = True
             if not allow and len(digest) > L:
@@ -340,8 +348,8 @@ def execute(prog):
             # ---- the library's verdict
             from .c12 import _as_buffer
             how = ["bytes", "bytes", "bytes", "bytearray", "mv", "arrayB",
-                   "arrayH", "mvH", "arrayI", "arrayb", "mvw"][
-                       it["fseed"] % 11]
+                   "arrayH", "mvH", "arrayI", "arrayb", "mvw", "mvb",
+                   "mvc"][it["fseed"] % 13]
             if fmt == "strings":
                 arg = [_as_buffer(x, how) if how != "mvw"
                        else memoryview(bytearray(x)) for x in data]
